@@ -365,7 +365,13 @@ class Units(object):
             result = arg1 * arg2
 
         if result is not None:
-            result.name = name
+            if result is arg1 or result is arg2:
+                # An operand (possibly a shared constant such as Units.KM) is
+                # being returned; never rename it
+                if name is not None:
+                    result = Units(result.exponents, result.triple, name)
+            else:
+                result.name = name
 
         return result
 
@@ -381,7 +387,13 @@ class Units(object):
             result = arg1 / arg2
 
         if result is not None:
-            result.name = name
+            if result is arg1 or result is arg2:
+                # An operand (possibly a shared constant such as Units.KM) is
+                # being returned; never rename it
+                if name is not None:
+                    result = Units(result.exponents, result.triple, name)
+            else:
+                result.name = name
 
         return result
 
